@@ -20,7 +20,7 @@ ID = "C06"
 LEVEL = "exploration"
 EXHAUSTIVE = True
 RULE = (
-    "every grid shape with extents 1..N per axis (bounds) x voxel sizes {unit, dyadic anisotropic}; per shape: divergence and mass "
+    "every grid shape with extents 1..N per axis (bounds) x voxel-size forms {float 1.0, float 0.5, per-axis dyadic list}; per shape: divergence and mass "
     "matrices entry by entry; face_to_cell on the complete face-impulse basis x evaluation points {None} + P^dim; linear combinations "
     "(1,1),(2,-3) of face pairs; cell_to_face_average for 4 cell-quantity forms x {arithmetic, harmonic} x 9 ordered value pairs from "
     "{1,2,4} alternating along every axis + a generic field; tangential/full reconstruction of constant fields. Non-trivial = the grid "
@@ -38,7 +38,7 @@ VS = {1: [0.5], 2: [0.5, 2.0], 3: [0.5, 2.0, 0.25]}
 
 
 def describe(tier):
-    return {"max_extent_per_dim": BOUNDS[tier], "eval_points_per_axis": PTS[tier], "voxel_sizes": ["1.0 (float)", VS]}
+    return {"max_extent_per_dim": BOUNDS[tier], "eval_points_per_axis": PTS[tier], "voxel_sizes": ["1.0 (float)", "0.5 (float, all axes)", VS]}
 
 
 def cases(tier):
@@ -46,7 +46,7 @@ def cases(tier):
     for dim in (1, 2, 3):
         n = BOUNDS[tier][dim]
         for s in itertools.product(range(1, n + 1), repeat=dim):
-            for vs in ("unit", "aniso"):
+            for vs in ("unit", "scalar", "aniso"):
                 out.append({"shape": list(s), "vs": vs, "tier": tier})
     out.sort(key=lambda c: (int(np.prod(c["shape"])), len(c["shape"]), c["shape"], c["vs"]))
     return out
@@ -59,11 +59,14 @@ def run_case(case, r):
     dim = len(shape)
     tier = case["tier"]
     cls = shape_class(shape)
-    vs = np.ones(dim) if case["vs"] == "unit" else np.array(VS[dim])
+    # "unit": voxel_size=1.0 (float); "scalar": voxel_size=0.5 (one float for all axes);
+    # "aniso": a list with one dyadic size per axis
+    vs = {"unit": np.ones(dim), "scalar": np.full(dim, 0.5), "aniso": np.array(VS[dim])}[case["vs"]]
+    vs_arg = {"unit": 1.0, "scalar": 0.5, "aniso": list(VS[dim])}[case["vs"]]
     # start from a non-initial process state: operators of a grid of the SAME shape but the
     # OTHER voxel sizes (and of the transposed shape) have been built and used before, so any
     # state kept between grids (module-level caches keyed too coarsely) shows up
-    for oshape, ovs in ((shape, list(VS[dim]) if case["vs"] == "unit" else 1.0), (shape[::-1], 1.0 if case["vs"] == "unit" else list(VS[dim]))):
+    for oshape, ovs in ((shape, list(VS[dim]) if case["vs"] != "aniso" else 0.5), (shape[::-1], 1.0 if case["vs"] != "unit" else list(VS[dim]))):
         og = darsia.Grid(oshape, ovs)
         darsia.FVDivergence(og), darsia.FVMass(og, "cells"), darsia.FVMass(og, "faces")
         if og.num_faces:
@@ -71,7 +74,7 @@ def run_case(case, r):
             darsia.cell_to_face_average(og, np.ones(oshape), "harmonic")
             if dim >= 2:
                 darsia.FVFullFaceReconstruction(og)(np.ones(og.num_faces))
-    g = darsia.Grid(shape, 1.0 if case["vs"] == "unit" else list(VS[dim]))
+    g = darsia.Grid(shape, vs_arg)
 
     def cell(clause):
         return f"C06/{clause}/dim={dim}/{cls}/vs={case['vs']}"
@@ -210,8 +213,11 @@ def run_case(case, r):
 
     for mode in ("arithmetic", "harmonic"):
         oks = {"scalar": True, "scalar1": True, "vector": True, "tensor": True}
-        for k, fld in enumerate(fields):
-            others = [fields[(k + 1 + j) % len(fields)] for j in range(dim)]
+        # the arithmetic mean is defined for any sign: the same fields shifted by -3 give
+        # values in {-2, -1, 1}; the harmonic mean is used on positive quantities only
+        use = fields + [f - 3.0 for f in fields] if mode == "arithmetic" else fields
+        for k, fld in enumerate(use):
+            others = [use[(k + 1 + j) % len(use)] for j in range(dim)]
             comp = [fld if j == 0 else others[j] for j in range(dim)]  # component j differs from component 0
             forms = {
                 "scalar": (fld, [fld] * dim),
